@@ -87,6 +87,9 @@ pub struct Stats {
     pub downstream_of_bind_invoked: u64,
     pub teardown_nodes_checked: u64,
     pub teardown_tokens_checked: u64,
+    pub vars_dropped_in_closures: u64,
+    pub value_calls_compared: u64,
+    pub one_stabilise_teardowns: u64,
     pub recompute_orders: Vec<u64>,
 }
 
@@ -312,6 +315,14 @@ impl World {
                     },
                 };
                 self.stats.between_reads_compared += 1;
+                if i % 3 == 0 {
+                    // the panicking accessor agrees with the fallible one
+                    self.stats.value_calls_compared += 1;
+                    let v = h.value_or_panic();
+                    if v != got.ok() {
+                        problems.push(format!("observer o{i}: value() gave {:?} but try_get_value() gave {:?} (state {:?} x)", v, got, o.state));
+                    }
+                }
                 if got != expected {
                     problems.push(format!(
                         "observer o{i} on n{} returned {:?} after {:?}, expected {:?} (state {:?})",
@@ -574,7 +585,8 @@ impl World {
                 cu.visit(self.observers[*o].node);
             }
             let union = cu.nodes;
-            let mut cl = Cone::new(&mut ev, ConeMode::StartUnder);
+            // (used to decide which binds are certainly necessary during the whole round)
+            let mut cl = Cone::new(&mut ev, ConeMode::Stable);
             for o in &live {
                 if self.observers[*o].state == ObsState::InUse {
                     cl.visit(self.observers[*o].node);
@@ -649,8 +661,9 @@ impl World {
         // binds whose input changed: their generation in force must not run any more
         let mut stale_gens: HashSet<(NodeKey, u32)> = HashSet::new();
         for n in &cone_end {
-            // only binds that were already necessary when the round began: a bind that is linked in
-            // during the round cannot have stopped its old nodes before that
+            // only binds that are necessary during the whole round: a bind that is linked in (or
+            // transiently unlinked) during the round cannot stop independently observed old nodes
+            // while it is not part of the computation
             if !cone_start_under.contains(n) {
                 continue;
             }
@@ -664,6 +677,13 @@ impl World {
         }
         if !stale_gens.is_empty() {
             self.stats.stale_gen_rounds += 1;
+        }
+        if std::env::var("VH_TRACE").is_ok() {
+            let mut a: Vec<_> = cone_start_under.iter().collect();
+            a.sort();
+            let mut b: Vec<_> = cone_end.iter().collect();
+            b.sort();
+            eprintln!("    cone_start_under={:?} cone_end={:?} stale_gens={:?} live={:?}", a, b, stale_gens, live.iter().map(|o| (o, self.observers[*o].node, self.observers[*o].state)).collect::<Vec<_>>());
         }
         let mut force_now = force_before.clone();
 
@@ -680,6 +700,8 @@ impl World {
         let mut new_subs: Vec<(usize, usize, bool)> = vec![];
         let mut cutoffs: HashMap<NodeKey, Vec<(Val, Val, bool)>> = HashMap::new();
         let mut problems: Vec<(&'static str, String)> = vec![];
+        let mut unsubscribed_in_batch: HashSet<usize> = HashSet::new();
+        let mut vars_dropped_in_round = 0u64;
 
         macro_rules! dyn_scope_check {
             ($d:expr, $what:expr) => {{
@@ -773,6 +795,15 @@ impl World {
                         }
                     }
                     handler_events.push((*sub, *update));
+                    // no callback runs after unsubscribe / disallow_future_use / dropping the last handle
+                    if unsubscribed_in_batch.contains(sub) {
+                        problems.push(("C09", format!("handler of subscription s{sub} ran in round {k} after it had been unsubscribed earlier in the same batch")));
+                    }
+                    if let Some(Some(rec)) = self.subs.get(*sub) {
+                        if disallowed_in_batch.contains(&rec.obs) {
+                            problems.push(("C09", format!("handler of subscription s{sub} ran in round {k} after its observer o{} had been disallowed or dropped by an earlier handler of the same batch", rec.obs)));
+                        }
+                    }
                 }
                 Event::ClosureRead { who, obs, result } => {
                     self.stats.closure_reads_checked += 1;
@@ -841,9 +872,14 @@ impl World {
                     if let Some(s) = self.subs.get_mut(*sub).and_then(|s| s.as_mut()) {
                         s.active = false;
                     }
+                    unsubscribed_in_batch.insert(*sub);
                 }
                 Event::DisallowBy { obs, .. } => {
                     disallowed_in_batch.insert(*obs);
+                }
+                Event::VarDropped { var, .. } => {
+                    self.model.vars[*var].handle_alive = false;
+                    vars_dropped_in_round += 1;
                 }
             }
         }
@@ -883,7 +919,7 @@ impl World {
                         let kind = &self.model.nodes[*n].kind;
                         let ins = kind.inputs();
                         let nin = match kind {
-                            Kind::MapWithOld(..) => 1,
+                            Kind::MapWithOld(..) | Kind::MapWithOldPair(..) => 1,
                             _ => ins.len(),
                         };
                         for (i, inp) in ins.iter().take(nin).enumerate() {
@@ -897,6 +933,12 @@ impl World {
                                         )));
                                     }
                                 }
+                            }
+                        }
+                        if let Kind::MapWithOldPair(..) = kind {
+                            let expected_old = self.track[*n].last_result.unwrap_or(Val::I(-1));
+                            if comparable && args.get(1) != Some(&expected_old) {
+                                problems.push(("C02", format!("map_with_old n{n} received old value {:?} in round {k}, its previous result was {:?}", args.get(1), expected_old)));
                             }
                         }
                         if let Kind::MapWithOld(..) = kind {
@@ -1029,6 +1071,13 @@ impl World {
             self.observers[*o].state = ObsState::Gone;
             self.deactivate_subs_of(*o);
         }
+        {
+            let t = self.tables.borrow();
+            for (i, o) in self.observers.iter_mut().enumerate() {
+                o.clones = t.observers[i].len();
+            }
+        }
+        self.stats.vars_dropped_in_closures += vars_dropped_in_round;
         {
             let t = self.tables.borrow();
             for o in &live {
@@ -1293,7 +1342,7 @@ impl World {
         let ran = invoked.contains(&NodeKey::Top(n));
         match info.cutoff {
             CutoffKind::Default | CutoffKind::FnEq | CutoffKind::LogEq => match &info.kind {
-                Kind::MapWithOld(_, _, false) => Some(ran),
+                Kind::MapWithOld(_, _, false) | Kind::MapWithOldPair(_, _, false) => Some(ran),
                 Kind::DependOn(..) => {
                     if prev != now {
                         Some(true)
@@ -1307,8 +1356,8 @@ impl World {
             CutoffKind::Never | CutoffKind::LogNever => match &info.kind {
                 Kind::Var(v) => Some(written[*v]),
                 Kind::Map(..) | Kind::Map2(..) | Kind::MapN(..) | Kind::Fold(..) | Kind::MapP(..)
-                | Kind::MapCyclic(..) | Kind::Writer(..) | Kind::Enumerate(..) => Some(ran),
-                Kind::MapWithOld(_, _, truthful) => Some(if *truthful { prev != now } else { ran }),
+                | Kind::MapCyclic(..) | Kind::Writer(..) | Kind::Enumerate(..) | Kind::MapHold(..) => Some(ran),
+                Kind::MapWithOld(_, _, truthful) | Kind::MapWithOldPair(_, _, truthful) => Some(if *truthful { prev != now } else { ran }),
                 _ => {
                     if prev != now {
                         Some(true)
@@ -1385,7 +1434,7 @@ impl World {
             produced[n] = if is_fn {
                 if !ran[n] {
                     Some(false)
-                } else if let Kind::MapWithOld(_, _, truthful) = &info.kind {
+                } else if let Kind::MapWithOld(_, _, truthful) | Kind::MapWithOldPair(_, _, truthful) = &info.kind {
                     match (tr.last_result, results[n]) {
                         (None, _) => Some(true),
                         (Some(p), Some(r)) => Some(if *truthful { p != r } else { true }),
@@ -1648,6 +1697,14 @@ impl World {
                         }
                     };
                     self.stats.observer_reads_compared += 1;
+                    if got.is_err() {
+                        if let Some(v) = h.value_or_panic() {
+                            problems.push(format!(
+                                "after a panic in a {kind} function escaped stabilise, Observer::value() on o{i} returned {:?} although try_get_value() fails with {:?}",
+                                v, got
+                            ));
+                        }
+                    }
                     match got {
                         Err(_) => {}
                         Ok(v) => {
@@ -1705,6 +1762,8 @@ impl World {
         if self.st.is_none() {
             return;
         }
+        // one variant: every handle goes (state last), then exactly one stabilise must release everything
+        let one_stabilise = !state_first && !interleave && !self.poisoned;
         #[derive(Clone, Copy, Debug)]
         enum D {
             Handle(usize),
@@ -1734,6 +1793,8 @@ impl World {
         rng.shuffle(&mut items);
         if state_first {
             items.insert(0, D::State);
+        } else if one_stabilise {
+            items.push(D::State);
         } else {
             let pos = rng.below(items.len() + 1);
             items.insert(pos, D::State);
@@ -1741,6 +1802,30 @@ impl World {
         let poisoned = self.poisoned;
         let mut state_gone = false;
         for it in items {
+            if one_stabilise && matches!(it, D::State) {
+                // all user handles are gone: one stabilise, then nothing of the graph may remain
+                self.stats.one_stabilise_teardowns += 1;
+                let st = self.st.clone().unwrap();
+                if let Err(e) = catch_unwind(AssertUnwindSafe(|| st.stabilise())) {
+                    self.violate("C12", format!("stabilise after dropping every handle panicked: {}", panic_text(&e)));
+                    return;
+                }
+                drop(st);
+                let mut left = vec![];
+                for (i, p) in self.probes.iter().enumerate() {
+                    if p.alive() {
+                        left.push(format!("n{i}({})", self.model.nodes[i].kind.name()));
+                    }
+                }
+                let reg_left: Vec<String> = self.sh.registry.borrow().iter().enumerate()
+                    .filter(|(_, e)| e.weak.as_ref().map_or(false, |w| w.strong_count() > 0)).map(|(i, _)| format!("d{i}")).collect();
+                left.extend(reg_left);
+                if !left.is_empty() {
+                    self.violate("C12", format!("every handle was dropped and one stabilise has run, but these nodes are still allocated: {}", left.join(",")));
+                } else if self.sh.tokens.get() != 0 {
+                    self.violate("C12", format!("every handle was dropped and one stabilise has run, but {} closures/values captured by the graph are still alive", self.sh.tokens.get()));
+                }
+            }
             let r = catch_unwind(AssertUnwindSafe(|| match it {
                 D::Handle(i) => {
                     self.handles[i] = None;
@@ -1812,7 +1897,7 @@ pub fn is_fn_node(kind: &Kind) -> bool {
     match kind {
         Kind::Fold(_, _, ins) => !ins.is_empty(),
         Kind::Map(..) | Kind::Map2(..) | Kind::MapN(..) | Kind::MapP(..) | Kind::MapCyclic(..) | Kind::Writer(..)
-        | Kind::Enumerate(..) | Kind::MapWithOld(..) => true,
+        | Kind::Enumerate(..) | Kind::MapWithOld(..) | Kind::MapWithOldPair(..) | Kind::MapHold(..) => true,
         _ => false,
     }
 }
